@@ -299,6 +299,8 @@ var universe = []Obj{
 	// vectors
 	V(I("1"), I("2")), V(D("1"), I("2")), V(Str("a")), V(Str("A")), V(Chr("a")), V(Chr("A")), V(),
 	V(I(two64)), V(R("1/2")), V(R("1/3")), V(D("0.5")), V(L(I("1"), I("2"))),
+	// complex numbers, with a zero imaginary part (equal to a real) and without
+	Src("#C(1 0)"), Src("#C(2.5 0)"), Src("#C(1 2)"), Src("#C(0 0)"), D("2.5"), R("5/2"),
 	// nil, the empty list, t
 	{K: "nil"}, L(), {K: "t"},
 }
